@@ -902,7 +902,7 @@ def search(ctx):
         if v in a["graph"]["node_flow"]:
             a["graph"]["node_flow"][v] += 3
         b = copy.deepcopy(base); b["graph"]["node_flow"].pop(v, None)
-        c = copy.deepcopy(base); c["constraints"] = [random_walk(rng, g, maxlen=3)]
+        c = copy.deepcopy(base); c["constraints"] = [random_walk(rng, g, maxlen=3)]; c["constraints_kind"] = "nodes"
         d = copy.deepcopy(base); d["starts"], d["ends"] = [rng.choice(g["nodes"])], [rng.choice(g["nodes"])]
         fresh += [a, b, c, d]
         w = random_walk(rng, g, maxlen=4)
